@@ -24,7 +24,8 @@ CLAIMED = {
              "GuardsSufficient, NoSilentWrap and totality; GradXform.tla checks the uniform/residual split (T = R o U, U a similarity, "
              "circles stay circles, no silent overflow).  Every terminal state is one implementation test (class, in-memory denotation, COLR "
              "compile/decompile judged by an independent reading of the OpenType paints), plus thousands of random affines and gradients whose "
-             "colours at corresponding points are compared by an independent evaluator.",
+             "colours at corresponding points are compared by an independent evaluator; end to end, the overflow fallbacks as the compiler reaches them "
+             "(thin bars, tiny copies, very wide elliptical gradients) are judged by the layer oracle on compiled fonts.",
         note="Trusted: TLC, fontTools COLR (de)compilation as the reference for field ranges, the independent gradient evaluator (written from "
              "the COLRv1 spec).  Continuous inputs are sampled; the lattice is exhaustive only over its stated values.",
         technique="TLA+ transcription of the encoder model-checked by TLC; one implementation test per model state (spec-to-code replay)",
@@ -36,7 +37,7 @@ CLAIMED = {
              "It is instantiated on the ninja graphs the real driver writes for every world of a small family (B3, extracted at check time, "
              "read sets measured with strace) and TLC enumerates all histories within the bounds for FreshOK/AllFresh/FailStop, all schedules of "
              "one invocation, and liveness under fairness.  Sampled model histories are replayed on the real CLI: exit status, executed-edge set "
-             "(validates the ninja model) and sha256(font) against a clean build.",
+             "(validates the ninja model) and sha256(font) against a clean build.  Families: clip/metrics toggle, colour-format toggle, thorough: bitmap options.",
         note="Trusted: TLC, ninja, strace; content-term abstraction (a step's output is a function of the files it reads).  The mtime limitation "
              "(content changes without a newer mtime) is reproduced every run and reported as a known finding, not a violation.",
         technique="TLA+ model of driver+ninja+faults on graphs extracted from the code, model-checked by TLC; model histories replayed on the real CLI",
@@ -70,8 +71,11 @@ CLAIMED = {
              "donors that sort after their users, tidy) is model-checked for SamePicture, NoCrossGlyphRef, HrefsClosed, DocRanges, PlacedOnce over all "
              "inputs of <=2 glyphs x <=3 layers x name orders; scenarios are built into real picosvg(z) fonts, documents projected to the model's "
              "vocabulary (structure matched exactly: 0 drift) and rendered by an independent OT-SVG oracle; random scenarios over "
-             "picosvg(z)/untouchedsvg(z) with shuffled input order.  TLC found the tidy defect (donor repainted) now fixed in /repo.",
-        note="Trusted: TLC; lxml; the OT-SVG oracle (SVG 1.1 subset: g, path, use, defs, basic shapes, fill inheritance, opacity, gradients).",
+             "picosvg(z)/untouchedsvg(z) with shuffled input order, and a grid of user-transform kinds x gradient kinds.  The glyph-id bookkeeping "
+             "(Reshuffle, stored ids, GidIsPosition) is part of the model and compared with the font; a negative configuration must be violated.  TLC found "
+             "the tidy defect (donor repainted); the grid found two OT-SVG gradient defects; all fixed in /repo.",
+        note="Trusted: TLC; lxml; the OT-SVG oracle (SVG 1.1 subset: g, path, use, defs, basic shapes, fill inheritance, opacity, gradients), "
+             "itself compared with resvg on the documents of real builds at the start of every run.",
         technique="TLA+ model of the document assembly protocol checked by TLC; spec-to-code replay with structural projection and an independent OT-SVG renderer",
         design_ref="DESIGN.md §4.3, §5 C02",
     ),
@@ -106,7 +110,8 @@ CLAIMED = {
         text="Build.tla with FreeSchedule on the ninja graphs the real driver writes (B3) checks that every interleaving of a clean invocation ends in "
              "the canonical content term and that every file a step really reads (strace) is ordered before it by declared inputs "
              "(DeclaredCoversRead); real builds of one source set per format under argument permutations, hash seeds, -j1, random topological "
-             "edge-by-edge orders and a different cwd/build-dir layout must have identical sha256.",
+             "edge-by-edge orders, a different cwd/build-dir layout and relative spellings from inside a source directory must have identical sha256; "
+             "Sources.tla (resolved source order independent of cwd and argument order, with a negative configuration) is replayed into config.load.",
         note="Trusted: TLC, ninja, strace; SOURCE_DATE_EPOCH fixed.  Schedules are exhaustive on the model, sampled on the real CLI.",
         technique="TLA+ model of ninja scheduling on graphs extracted from the code, checked by TLC; differential real builds",
         design_ref="DESIGN.md §4.1, §5 C08",
@@ -177,7 +182,8 @@ CLAIMED = {
              "stripping) is model-checked for CmapKept, AdvanceKept, OriginalKept, SamePictureAllTables, NamesAsRequested; the real maximum_color is "
              "run on nanoemoji-built COLRv0/COLRv1/picosvg/untouchedsvg fonts and third-party-style COLR fonts (arbitrary paint graphs, no space "
              "glyph, kerning/mark lookups, several palettes) x {--bitmaps, --colr_version, --keep_glyph_names}; input and output are compared table "
-             "by table (name-keyed) and each colour table's layers per glyph by the layer oracle.",
+             "by table (name-keyed, incl. the meaning of GSUB/GPOS/GDEF with mark anchors on reordered colour glyphs) and each colour table's layers per "
+             "glyph by the layer oracle; Build.tla (FreeSchedule, DeclaredCoversRead) is instantiated on the ninja graph maximum_color itself writes.",
         note="Trusted: TLC; fontTools; the layer oracle and OT-SVG oracle.  Bitmap strikes are checked for presence/placement, not pixels.",
         technique="TLA+ model of the maximum_color pipeline checked by TLC; differential replay of real runs with table-wise and picture-wise comparison",
         design_ref="DESIGN.md §5 C12",
